@@ -116,7 +116,7 @@ func runC12(cfg *config, res *monitor.Result) {
 			shadow := t.pkg.New(t.md.FullName())
 			_ = t.pkg.FromDynamic(base, shadow)
 			inUnknown := map[protoreflect.FieldNumber]bool{} // extensions injected as raw unknown bytes
-			model := map[protoreflect.FieldNumber][]byte{} // number -> canonical bytes of the value
+			model := map[protoreflect.FieldNumber][]byte{}   // number -> canonical bytes of the value
 			var trace []string
 			setSeen, clearSeen := false, false
 			nops := 3 + r.Intn(8)
